@@ -98,7 +98,7 @@ def wordOf (w : Str) : Tok := if keywords.contains w then .kw w else .ident w
 /-- no numeric literal `i… / f… / d…` starts at a word whose second character is not a digit and which is not
     followed by a sign, a digit or (for `f`, `d` alone) a dot -/
 theorem matchNum_none (c : Char) (rest r : Str) (dot : Bool) (hrest : rest.all isIdc = true)
-    (hnum : ∀ a rest', rest = a :: rest' → isDigit a = false)
+    (hnum : (c = 'i' ∨ c = 'f' ∨ c = 'd') → ∀ a rest', rest = a :: rest' → isDigit a = false)
     (hdot : dot = true → rest = [] → c ≠ 'f' ∧ c ≠ 'd') (hr : Fol dot r) :
     (if (c == 'i' || c == 'f' || c == 'd') = true then matchNum c (rest ++ r) else none) = none := by
   split
@@ -120,7 +120,7 @@ theorem matchNum_none (c : Char) (rest r : Str) (dot : Bool) (hrest : rest.all i
            simp [matchNum, matchFrac, countWhile, isDigit])
   | cons a rest' =>
     simp only [List.all_cons, Bool.and_eq_true] at hrest
-    have hd := hnum a rest' rfl
+    have hd := hnum (by simpa only [Bool.or_eq_true, beq_iff_eq, or_assoc] using hg) a rest' rfl
     have hr := idc_range hrest.1
     have h1 : a ≠ '+' := toNat_ne (by simp; omega)
     have h2 : a ≠ '-' := toNat_ne (by simp; omega)
@@ -129,14 +129,14 @@ theorem matchNum_none (c : Char) (rest r : Str) (dot : Bool) (hrest : rest.all i
     split <;> simp_all [matchFrac, countWhile]
 
 theorem stepWord_word (c : Char) (rest r : Str) (dot : Bool) (hrest : rest.all isIdc = true)
-    (hnum : ∀ a rest', rest = a :: rest' → isDigit a = false)
+    (hnum : (c = 'i' ∨ c = 'f' ∨ c = 'd') → ∀ a rest', rest = a :: rest' → isDigit a = false)
     (hdot : dot = true → rest = [] → c ≠ 'f' ∧ c ≠ 'd') (hr : Fol dot r) :
     stepWord c (rest ++ r) = (wordOf (c :: rest), r) := by
   have hcw := countWhile_append isIdc rest r hrest hr.notIdc
   simp only [stepWord, matchNum_none c rest r dot hrest hnum hdot hr, wordTok, wordOf, hcw, List.take_left', List.drop_left']
 
 theorem step_word (c : Char) (rest r : Str) (dot : Bool) (hc : isAlpha c = true) (hrest : rest.all isIdc = true)
-    (hnum : ∀ a rest', rest = a :: rest' → isDigit a = false)
+    (hnum : (c = 'i' ∨ c = 'f' ∨ c = 'd') → ∀ a rest', rest = a :: rest' → isDigit a = false)
     (hdot : dot = true → rest = [] → c ≠ 'f' ∧ c ≠ 'd') (hr : Fol dot r) :
     step (c :: rest ++ r) = some (some (wordOf (c :: rest)), r) := by
   have h1 := alpha_not_white hc
@@ -302,11 +302,12 @@ theorem Fol.mono {r : Str} (h : Fol false r) (dot : Bool) : Fol dot r := by
 
 theorem Fol.of_head (dot : Bool) (c : Char) (r : Str) (hc : c ∈ folChars) : Fol dot (c :: r) := Or.inl hc
 
-/-- a name the printer can write as one identifier: a letter, then identifier characters of which the first is not
-    a digit, and not a keyword (the lexer model also makes `i5x`, `f1x` identifiers; those are not covered) -/
+/-- a name the printer can write as one identifier: a letter, then identifier characters, not a keyword; after the
+    literal prefixes `i`, `f`, `d` the next character is not a digit (the lexer also makes `i5x`, `f1x` identifiers, by
+    longest match against the numeric literal; those are not covered) -/
 def NameOK (n : Str) : Prop :=
   ∃ c rest, n = c :: rest ∧ isAlpha c = true ∧ rest.all isIdc = true ∧
-    (∀ a rest', rest = a :: rest' → isDigit a = false) ∧ keywords.contains n = false
+    ((c = 'i' ∨ c = 'f' ∨ c = 'd') → ∀ a rest', rest = a :: rest' → isDigit a = false) ∧ keywords.contains n = false
 
 /-- the text of a literal leaf is one token when followed by a closing bracket, a space or a comma; the library's
     float text is not modelled character by character: for it this is the hypothesis (decimals are proved) -/
@@ -483,7 +484,7 @@ theorem lx_sp {r : Str} {T : List Tok} (hr : Hd StartC r) (h : Lexes r T) : Lexe
 
 /-- a word (keyword or identifier) -/
 theorem lx_word {c : Char} {rest r : Str} {T : List Tok} (dot : Bool) (hc : isAlpha c = true) (hrest : rest.all isIdc = true)
-    (hnum : ∀ a rest', rest = a :: rest' → isDigit a = false)
+    (hnum : (c = 'i' ∨ c = 'f' ∨ c = 'd') → ∀ a rest', rest = a :: rest' → isDigit a = false)
     (hdot : dot = true → rest = [] → c ≠ 'f' ∧ c ≠ 'd') (hr : Fol dot r) (h : Lexes r T) :
     Lexes (c :: rest ++ r) (wordOf (c :: rest) :: T) :=
   Lexes.tok (w := c :: rest) (by simp) (step_word c rest r dot hc hrest hnum hdot hr) h
@@ -502,7 +503,7 @@ theorem lx_ident {n r : Str} {T : List Tok} (hn : NameOK n) (dot : Bool) (hdot :
 /-- the keywords the printer writes -/
 def KwText (w : Str) : Prop :=
   keywords.contains w = true ∧ ∃ c rest, w = c :: rest ∧ isAlpha c = true ∧ rest.all isIdc = true ∧
-    (∀ a rest', rest = a :: rest' → isDigit a = false) ∧ rest ≠ []
+    ((c = 'i' ∨ c = 'f' ∨ c = 'd') → ∀ a rest', rest = a :: rest' → isDigit a = false) ∧ rest ≠ []
 
 theorem lx_kw {w r : Str} {T : List Tok} (hw : KwText w) (dot : Bool) (hr : Fol dot r) (h : Lexes r T) :
     Lexes (w ++ r) (.kw w :: T) := by
@@ -515,13 +516,13 @@ theorem kwText_lit : KwText ['t', 'r', 'u', 'e'] ∧ KwText ['f', 'a', 'l', 's',
     KwText ['i', 'f'] ∧ KwText ['t', 'h', 'e', 'n'] ∧ KwText ['e', 'l', 's', 'e'] ∧ KwText ['a', 'n', 'd'] ∧ KwText ['o', 'r'] ∧
     KwText ['c', 'o', 'n', 't', 'a', 'i', 'n', 's'] := by
   refine ⟨?_, ?_, ?_, ?_, ?_, ?_, ?_, ?_, ?_⟩ <;>
-    exact ⟨by decide, _, _, rfl, by decide, by decide, by intro a r e; cases e; decide, by simp⟩
+    exact ⟨by decide, _, _, rfl, by decide, by decide, by intro _ a r e; cases e; decide, by simp⟩
 
 theorem kwText_un (op : UnOp) (h1 : op ≠ .neg) (h2 : op ≠ .not) : KwText (unKw op) := by
   cases op <;> first
     | exact absurd rfl h1
     | exact absurd rfl h2
-    | exact ⟨by decide, _, _, rfl, by decide, by decide, by intro a r e; cases e; decide, by simp⟩
+    | exact ⟨by decide, _, _, rfl, by decide, by decide, by intro _ a r e; cases e; decide, by simp⟩
 
 theorem fol_close (dot : Bool) (r : Str) : Fol dot (')' :: r) := Fol.of_head dot _ r (by decide)
 theorem fol_space (dot : Bool) (r : Str) : Fol dot (' ' :: r) := Fol.of_head dot _ r (by decide)
